@@ -555,8 +555,13 @@ VARIANTS["C07"] = [
         "    dephas = np.zeros(shape)\n    np.put(dephas, 1, 1)\n    dephas = scipy.fft.rfft(dephas, axis=axis)\n", "    dephas = np.linspace(0, -np.pi, ns // 2 + 1).reshape(shape * 0 + 1)\n"), (
         "    W *= np.exp(1j * np.angle(dephas) * s)\n", "    W *= np.exp(1j * dephas * s)\n")], ("D4",), "ramp ends at -pi: right for even ns, too steep by ns/(ns-1) for odd ns"),
     V("twin-analytic-ramp-exact", "twin", FO, [(
-        "    dephas = np.zeros(shape)\n    np.put(dephas, 1, 1)\n    dephas = scipy.fft.rfft(dephas, axis=axis)\n", "    dephas = (-2 * np.pi * np.arange(ns // 2 + 1) / ns).reshape(shape * 0 + 1)\n"), (
-        "    W *= np.exp(1j * np.angle(dephas) * s)\n", "    W *= np.exp(1j * dephas * s)\n")], (), "exact analytic ramp -2*pi*k/ns (shape handling aside)"),
+        "    dephas = np.zeros(shape)\n    np.put(dephas, 1, 1)\n    dephas = scipy.fft.rfft(dephas, axis=axis)\n", "    kshape = shape * 0 + 1\n    kshape[axis] = ns // 2 + 1\n    dephas = (-2 * np.pi * np.arange(ns // 2 + 1) / ns).reshape(kshape)\n"), (
+        "    W *= np.exp(1j * np.angle(dephas) * s)\n", "    W *= np.exp(1j * dephas * s)\n")], (), "exact analytic ramp -2*pi*k/ns laid out along the shift axis"),
+    V("shifts-scaled-in-place-through-view", "fire", FO, [(
+        "        s = s.reshape(s_shape)\n", "        s = s.reshape(s_shape)\n        s *= 1.0\n")], ("D1",),
+      "reshape returns a view: the in-place statement writes into the caller's shift vector"),
+    V("twin-shifts-copied-before-in-place", "twin", FO, [(
+        "        s = s.reshape(s_shape)\n", "        s = np.array(s, dtype=float).reshape(s_shape)\n        s *= 1.0\n")], (), "np.array copies"),
     V("twin-ns-keyword", "twin", FO, [("scipy.fft.irfft(W, ns, axis=axis)", "scipy.fft.irfft(W, n=ns, axis=axis)")], (), ""),
     V("twin-not-iscomplex", "twin", FO, [("    do_fft = np.invert(np.iscomplexobj(w))\n", "    do_fft = not np.iscomplexobj(w)\n")], (), ""),
 ]
